@@ -86,9 +86,12 @@ class Facts:
     ints: set[str] = field(default_factory=set)
     notes: list[str] = field(default_factory=list)
     _n: int = 0
+    defs: list[tuple] = field(default_factory=list)  # (symbol, 'min'|'max', Lin a, Lin b): exact definitions checked on models
 
     def copy(self) -> "Facts":
-        return Facts(list(self.ge0), dict(self.exact), set(self.ints), list(self.notes), self._n)
+        c = Facts(list(self.ge0), dict(self.exact), set(self.ints), list(self.notes), self._n, list(self.defs))
+        c.__dict__["_fdiv_cache"] = dict(self.__dict__.get("_fdiv_cache", {}))
+        return c
 
     def fresh(self, hint: str, exact: bool = True, integer: bool = True) -> Lin:
         self._n += 1
@@ -108,9 +111,30 @@ class Facts:
         return all(self.exact.get(s, True) for s in l.syms())
 
 
-def _fm_infeasible(cons: list[Lin]) -> bool:
-    """Is the system {c >= 0 for c in cons} infeasible over the rationals? (Fourier-Motzkin)"""
-    cons = [c for c in cons]
+def _tighten(c: Lin, ints: set[str]) -> Lin:
+    """Integer tightening of  sum a_i x_i + c >= 0  when every x_i is an integer symbol: scale to integer
+    coefficients, divide by their gcd and floor the constant (a Gomory-style cut; sound for integers)."""
+    if not c.coef or not all(s in ints for s in c.coef):
+        return c
+    from math import gcd, floor
+    den = 1
+    for v in c.coef.values():
+        den = den * v.denominator // gcd(den, v.denominator)
+    coefs = {k: int(v * den) for k, v in c.coef.items()}
+    g = 0
+    for v in coefs.values():
+        g = gcd(g, abs(v))
+    if g == 0:
+        return c
+    const = Fraction(c.const * den, g)
+    return Lin({k: Fraction(v, g) for k, v in coefs.items()}, floor(const))
+
+
+def _fm_infeasible(cons: list[Lin], ints: Optional[set[str]] = None) -> bool:
+    """Is the system {c >= 0 for c in cons} infeasible?  Fourier-Motzkin over the rationals, with integer
+    tightening of every derived constraint whose symbols are all integer-valued."""
+    ints = ints or set()
+    cons = [_tighten(c, ints) for c in cons]
     syms = sorted({s for c in cons for s in c.syms()})
     for s in syms:
         pos, neg, rest = [], [], []
@@ -123,7 +147,7 @@ def _fm_infeasible(cons: list[Lin]) -> bool:
                 kp, kn = p.coef[s], -n.coef[s]
                 comb = p.scale(kn) + n.scale(kp)
                 comb.coef.pop(s, None)
-                new.append(comb)
+                new.append(_tighten(comb, ints))
         # prune trivial and duplicates
         seen, cons = set(), []
         for c in new:
@@ -145,22 +169,23 @@ def entails_ge0(facts: Facts, l: Lin, strict: bool = False, integer: bool = True
         return l.const > 0 if strict else l.const >= 0
     if strict and integer and all(s in facts.ints for s in l.syms()) and all(v.denominator == 1 for v in l.coef.values()):
         neg = -l  # not(l >= 1)  <=>  l <= 0  <=>  -l >= 0
-        return _fm_infeasible(facts.ge0 + [neg])
+        return _fm_infeasible(facts.ge0 + [neg], facts.ints)
     if strict:
         # rationals: l > 0 fails iff l <= 0 feasible
-        return _fm_infeasible(facts.ge0 + [-l])
+        return _fm_infeasible(facts.ge0 + [-l], facts.ints)
     # not(l >= 0) <=> l <= -1 for integers, l < 0 for reals (relaxed to l <= -eps: use l <= -1 when integral)
     if integer and all(s in facts.ints for s in l.syms()) and all(v.denominator == 1 for v in l.coef.values()) \
             and l.const.denominator == 1:
-        return _fm_infeasible(facts.ge0 + [-l - Lin.c(1)])
+        return _fm_infeasible(facts.ge0 + [-l - Lin.c(1)], facts.ints)
     # real-valued: prove via closure: l < 0 infeasible.  FM handles only non-strict; l <= -eps for tiny eps is
     # implied infeasible if l <= 0 together with l != 0 ... we stay sound by testing l <= -1/10**9
-    return _fm_infeasible(facts.ge0 + [-l - Lin.c(Fraction(1, 10**9))])
+    return _fm_infeasible(facts.ge0 + [-l - Lin.c(Fraction(1, 10**9))], facts.ints)
 
 
 def find_model(facts: Facts, violated: Lin, lo: int = -3, hi: int = 9, limit: int = 200000) -> Optional[dict[str, int]]:
     """Small integer assignment satisfying every fact with ``violated < 0`` (a concrete witness)."""
-    syms = sorted({s for c in facts.ge0 for s in c.syms()} | violated.syms())
+    syms = sorted({s for c in facts.ge0 for s in c.syms()} | violated.syms()
+                  | {x for d in facts.defs for x in (d[2].syms() | d[3].syms() | {d[0]})})
     if len(syms) > 7:
         return None
     n = 0
@@ -169,7 +194,9 @@ def find_model(facts: Facts, violated: Lin, lo: int = -3, hi: int = 9, limit: in
         if n > limit:
             return None
         m = dict(zip(syms, map(Fraction, vals)))
-        if violated.eval(m) < 0 and all(c.eval(m) >= 0 for c in facts.ge0):
+        if violated.eval(m) < 0 and all(c.eval(m) >= 0 for c in facts.ge0) and all(
+                m.get(nm) is None or m[nm] == (min if kind == "min" else max)(a.eval(m), b.eval(m))
+                for (nm, kind, a, b) in facts.defs if a.syms() <= set(m) and b.syms() <= set(m)):
             return {k: int(v) for k, v in m.items()}
     return None
 
@@ -328,7 +355,12 @@ def evaluate(env: Env, e: ast.AST) -> Any:
                 return r
             if isinstance(e.op, ast.FloorDiv) and b.is_const() and b.const > 0 and b.const.denominator == 1:
                 # q = a // k  with  k*q <= a <= k*q + (k-1)   (exact relation, q determined by a)
+                ck = (repr(a), b.const)
+                cache = f.__dict__.setdefault("_fdiv_cache", {})
+                if ck in cache:
+                    return cache[ck]
                 q = f.fresh("fdiv", exact=f.is_exact(a), integer=True)
+                cache[ck] = q
                 k = b.const
                 f.add_ge(a, q.scale(k))
                 f.add_le(a, q.scale(k) + Lin.c(k - 1))
